@@ -603,6 +603,71 @@ func (m *Machine) exec(fr *frame, s ast.Stmt) (ctrl, Value, error) {
 			return c, rv, err
 		}
 		return ctrlNone, nil, nil
+	case *ast.TypeSwitchStmt:
+		inner := &frame{vars: map[types.Object]*Value{}, parent: fr, info: info}
+		if s.Init != nil {
+			if c, v, err := m.exec(inner, s.Init); err != nil || c != ctrlNone {
+				return c, v, err
+			}
+		}
+		var guard *ast.TypeAssertExpr
+		switch a := s.Assign.(type) {
+		case *ast.AssignStmt:
+			guard, _ = ast.Unparen(a.Rhs[0]).(*ast.TypeAssertExpr)
+		case *ast.ExprStmt:
+			guard, _ = ast.Unparen(a.X).(*ast.TypeAssertExpr)
+		}
+		if guard == nil {
+			return 0, nil, undecided(s.Pos(), "type switch guard")
+		}
+		x, err := m.eval(inner, guard.X)
+		if err != nil {
+			return 0, nil, err
+		}
+		dyn := ""
+		switch xv := x.(type) {
+		case *Opaque:
+			dyn = xv.GoType
+		case NilV:
+			dyn = "nil"
+		}
+		if dyn == "" {
+			return 0, nil, undecided(s.Pos(), "type switch on a value whose dynamic type is not modelled: %s", Show(x))
+		}
+		var chosen, deflt *ast.CaseClause
+		for _, cc := range s.Body.List {
+			cl := cc.(*ast.CaseClause)
+			if cl.List == nil {
+				deflt = cl
+				continue
+			}
+			for _, te := range cl.List {
+				want := "nil"
+				if t := info.TypeOf(te); t != nil {
+					if _, isNil := t.(*types.Basic); !(isNil && t.(*types.Basic).Kind() == types.UntypedNil) {
+						want = types.TypeString(t, nil)
+					}
+				}
+				if want == dyn && chosen == nil {
+					chosen = cl
+				}
+			}
+		}
+		if chosen == nil {
+			chosen = deflt
+		}
+		if chosen == nil {
+			return ctrlNone, nil, nil
+		}
+		body := &frame{vars: map[types.Object]*Value{}, parent: inner, info: info}
+		if o := info.Implicits[chosen]; o != nil {
+			body.declare(o, x)
+		}
+		c, rv, err := m.execBlock(body, chosen.Body)
+		if c == ctrlBreak {
+			c = ctrlNone
+		}
+		return c, rv, err
 	}
 	return 0, nil, undecided(s.Pos(), "statement %T is outside the analysed vocabulary", s)
 }
@@ -1023,12 +1088,18 @@ func (m *Machine) eval(fr *frame, e ast.Expr) (Value, error) {
 						return Lit(c[lo:hi]), nil
 					}
 				}
-				return &Unknown{Why: "slice of a symbolic string " + x.Flat()}, nil
+				hiS := ""
+				if e.High != nil {
+					if hv, _, _ := bound(e.High, 0); true {
+						hiS = fmt.Sprint(hv)
+					}
+				}
+				return &Unknown{Why: fmt.Sprintf("slice(%q,%d,%s)", x.Flat(), lo, hiS)}, nil
 			}
 			if s, ok := x.SliceFrom(int(lo)); ok {
 				return s, nil
 			}
-			return &Unknown{Why: fmt.Sprintf("slice [%d:] cuts into an opaque token of %q", lo, x.Flat())}, nil
+			return &Unknown{Why: fmt.Sprintf("slice(%q,%d,)", x.Flat(), lo)}, nil
 		case *List:
 			lo, ok1, err := bound(e.Low, 0)
 			if err != nil {
@@ -1153,7 +1224,7 @@ func (m *Machine) equal(pos token.Pos, a, b Value) Value {
 		if b, ok := b.(*Sym); ok {
 			eq, known := a.Equal(b)
 			if !known {
-				return &Unknown{Why: fmt.Sprintf("%q == %q", a.Flat(), b.Flat())}
+				return &Unknown{Why: fmt.Sprintf("(%q == %q)", a.Flat(), b.Flat())}
 			}
 			return eq
 		}
@@ -1195,10 +1266,10 @@ func (m *Machine) equal(pos token.Pos, a, b Value) Value {
 			return false
 		}
 	case *Unknown:
-		return a
+		return &Unknown{Why: "(" + a.Why + " == " + TermOf(b) + ")"}
 	}
 	if u, ok := b.(*Unknown); ok {
-		return u
+		return &Unknown{Why: "(" + TermOf(a) + " == " + u.Why + ")"}
 	}
 	return &Unknown{Why: fmt.Sprintf("comparison of %s and %s", Show(a), Show(b))}
 }
@@ -1217,11 +1288,10 @@ func (m *Machine) binop(pos token.Pos, op token.Token, l, r Value) (Value, error
 		}
 		return v, nil
 	}
-	if lu, ok := l.(*Unknown); ok {
-		return lu, nil
-	}
-	if ru, ok := r.(*Unknown); ok {
-		return ru, nil
+	_, lun := l.(*Unknown)
+	_, run := r.(*Unknown)
+	if lun || run {
+		return &Unknown{Why: "(" + TermOf(l) + " " + op.String() + " " + TermOf(r) + ")"}, nil
 	}
 	switch l := l.(type) {
 	case *Sym:
